@@ -391,4 +391,27 @@ CHECKS = {
                 "undetectable lies of a server (a different complete file) "
                 "are not in the menu.",
     },
+    "C13": {
+        "engine": "E-INPUT", "level": "exploration",
+        "technique": "bounded exhaustive enumeration over programs: source "
+                     "kind x destination kind x dtype widening x copy-info "
+                     "(3744 real convert-chunks runs) vs exact conversion "
+                     "of the decoded source",
+        "text": "Two-scale sources (different chunk sizes per scale, 1-3 "
+                "channels, 5 data types, raw / compressed_segmentation / "
+                "JPEG) are written through PrecomputedIO into 4 file "
+                "layouts, a sharded directory, or served over the HTTP "
+                "seam (flat, gzip_static, sharded); convert-chunks is run "
+                "in-process through main(argv) followed by the exit "
+                "handlers, towards every destination encoding (raw, "
+                "compressed_segmentation 8^3/2^3) x layout x sharding "
+                "(1,1,0)/raw and (2,1,1)/gzip x same or wider data type, "
+                "with a pre-existing info or --copy-info. Every chunk of "
+                "every scale of both datasets is decoded through fresh "
+                "handles: destination == exact conversion of the decoded "
+                "source, destination info as requested, source tree hash "
+                "unchanged, exit status 0.",
+        "note": "Volumes of 5x4x3 voxels; the destination info has the "
+                "source's geometry (documented precondition).",
+    },
 }
